@@ -92,6 +92,8 @@ def check(prog: Program, rep):
     rep.rule("C01.R7", "never more than k paths: under given weights the cap on non-empty paths is the caller's k", floor=3)
     from rules.providers import original_k_provider
     original_k_provider(prog, rep, "C01.R7", ["kFlowDecomp", "kLeastAbsErrors", "kMinPathError"])
+    from rules.providers import forced_empty_paths_removed
+    forced_empty_paths_removed(prog, rep, "C01.R7", ["kFlowDecomp", "kLeastAbsErrors", "kMinPathError"])
     rep.rule("C01.R6", "admissible endpoints: augmentation guards; node mode maps declared starts to the entry and ends to the exit endpoint", floor=6)
     from rules.c10 import augmentation_guards
     from rules.c11 import naming_rule
